@@ -320,3 +320,34 @@ pub fn fci_raw_space() -> ByteSpace {
         }
     })
 }
+
+/// The 12-kind tile menu of C11(a).
+pub fn tile_menu() -> Vec<Vec<u8>> {
+    vec![
+        vec![0x80, 203, 0, 0],                                                 // BYE ok
+        vec![0x80, 201, 0, 1, 1, 2, 3, 4],                                     // RR ok
+        vec![0x85, 204, 0, 2, 1, 2, 3, 4, b'n', b'a', b'm', b'e'],             // APP ok
+        vec![0x80, 207, 0, 1, 9, 9, 9, 9],                                     // unknown type ok
+        vec![0x81, 201, 0, 1, 1, 2, 3, 4],                                     // RR with count 1 and no block: typed parse fails
+        vec![0x00, 203, 0, 0],                                                 // version 0
+        vec![0x81, 202, 0, 2, 1, 2, 3, 4, 0x00, 0x07, 0x00, 0x00],             // SDES with a non-zero byte in the fill
+        vec![0xA0, 203, 0, 1, 0, 0, 0, 0],                                     // BYE with P and zero count
+        vec![0xA0, 201, 0, 2, 1, 2, 3, 4, 0, 0, 0, 4],                         // RR ok, 4 bytes of padding (legal at any position on the wire)
+        vec![0x40, 207, 0, 0],                                                 // unknown type, version 1
+        vec![0x80, 200, 0, 0],                                                 // SR of one word: shorter than an SR's minimum
+        vec![0x81, 205, 0, 1, 1, 2, 3, 4],                                     // transport feedback of two words: shorter than its minimum
+    ]
+}
+
+/// All concatenations of 1..=`depth` tiles of the menu (well-tiled datagrams whose tiles parse or fail in every
+/// position): the compound-shaped inputs of C08 / C12 / C18.
+pub fn tile_seq_space(depth: u32) -> ByteSpace {
+    let menu = tile_menu();
+    let k = menu.len() as u64;
+    ByteSpace::new(&format!("tile-sequences-depth-{}", depth), seq_count(k, depth) - 1, move |idx, out| {
+        out.clear();
+        for t in seq_decode(k, idx + 1) {
+            out.extend_from_slice(&menu[t as usize]);
+        }
+    })
+}
